@@ -103,3 +103,60 @@ func TestCondManyWaiters(t *testing.T) {
 		}
 	}
 }
+
+// Single-flight between tasks: the leader computes, the others wait on a
+// WaitGroup (shimmed) or on a done channel in a select (shimmed form: polling
+// select whose default clause parks the task).
+func TestWaitGroupAndSelectShims(t *testing.T) {
+	DeadlockHook = func() { panic("deadlock") }
+	for seed := uint64(1); seed <= 60; seed++ {
+		type call struct {
+			wg   sync.WaitGroup
+			done chan struct{}
+			val  int
+		}
+		var mu sync.Mutex
+		var cur *call
+		results := [4]int{}
+		worker := func(i int, useSelect bool) func() {
+			return func() {
+				Yield(21)
+				Lock(mu.TryLock, mu.Lock)
+				if c := cur; c != nil {
+					mu.Unlock()
+					Yield(22)
+					if useSelect {
+					again:
+						select {
+						case <-c.done:
+							SelectDone()
+						default:
+							SelectPark()
+							goto again
+						}
+					} else {
+						WGWait(c.wg.Wait)
+					}
+					results[i] = c.val
+					return
+				}
+				c := &call{done: make(chan struct{})}
+				c.wg.Add(1)
+				cur = c
+				mu.Unlock()
+				Yield(23)
+				Yield(24)
+				c.val = 77
+				Yield(25)
+				c.wg.Done()
+				close(c.done)
+				results[i] = c.val
+			}
+		}
+		cfg := Config{Policy: PolicyBernoulli, PThresh: ^uint64(0) / 2, SchedSeed: seed, Prio: []int{int(seed) % 4, 1, 2, 3, 0}}
+		res := Run(cfg, []func(){worker(0, false), worker(1, true), worker(2, false), worker(3, true)})
+		if results != [4]int{77, 77, 77, 77} || res.Deadlock {
+			t.Fatalf("seed %d results %v deadlock %v", seed, results, res.Deadlock)
+		}
+	}
+}
